@@ -1,9 +1,12 @@
 CHECK = {
     "level": "model_checking",
-    "technique": "explicit-state search to fixpoint over (ring implementation state, model queue) pairs; observers and both iterators run in every state",
+    "technique": "explicit-state search to fixpoint over (ring implementation state, model queue) pairs; the implementation state is the object's octet image (storage pointer blanked) plus the storage cells, so no particular encoding of head/tail/empty is assumed; roots: init+override(off) and init+override(on); observers and both iterators run in every state",
     "rule": "a case is one transition (operation applied to a reachable state) followed by size/empty/full and both iterators run to completion; non-trivial = everything but clear of an empty ring",
     "assumptions": ["two element values per type; capacities up to the stated bound (small-scope)",
-                    "instances: library octet_ring (uint8_t) and harness instantiations of the same macro template for uint16_t/uint32_t"],
+                    "instances: library octet_ring (uint8_t) and harness instantiations of the same macro template for uint16_t/uint32_t",
+                    "the ring object is a flat struct whose only pointer is the member `data` (the harness re-points it at a fresh exact-size block per transition); a state is restored by copying the object's octets, padding included",
+                    "no clause inspects head/tail or the iterator's index: a slot outside the storage is observed by ASan on the exact-size block",
+                    "the override mode chosen by init is not assumed: every explored history starts with an explicit override(on) or override(off)"],
     "harnesses": [{
         "name": "c19_ring", "src": "harness/c19_ring.c", "shape": "estate",
         "lib": ["src/octet-ring.c", "src/ring-buffer-iter.c"], "shards": 16, "opt": "-O2", "min_outcomes": 8,
